@@ -311,7 +311,7 @@ class Verdict:
         self.known[dev] = self.known.get(dev, 0) + 1
         self.known_example.setdefault(dev, example)
 
-    def absorb_replay(self, cases, results, engine='replay', max_report=25):
+    def absorb_replay(self, cases, results, engine="replay", max_report=int(os.environ.get("VERIF_MAXREPORT", "25"))):
         byid = {c['id']: c for c in cases}
         nontrivial = set()
         for r in results:
